@@ -658,10 +658,8 @@ func (r *proxyStreamReceiver) Run(
 			r.shardManager.RemoveLocalAckChan(r.sourceShardID, r.ackChan)
 			// The active-receiver entry is overwritten only once a successor has opened its stream: remove it unless
 			// that has happened (a successor that fails to open its stream must not leave our entry behind).
-			if current, ok := r.shardManager.GetActiveReceiver(r.sourceShardID); ok && current == ActiveReceiver(r) {
-				vfYield("activereceiver.window")
-				r.shardManager.UnregisterActiveReceiver(r.sourceShardID)
-			}
+			vfYield("activereceiver.window")
+			r.shardManager.UnregisterActiveReceiver(r.sourceShardID, r)
 		}()
 	}
 
